@@ -73,3 +73,16 @@ package errorhandler
 
 //@ iface (ErrorHandler).HandleError
 //@   logged herr
+
+// C12: "in the negotiated content type". The media types offered for negotiation, as the package
+// initialiser leaves them (the plain text one is what the default branch of format labels its body with).
+//@ globalinv C12: len(supportedMediaTypes) == 4 && supportedMediaTypes[0].Subtype == "html" && supportedMediaTypes[1].Subtype == "json" && supportedMediaTypes[2].Type == "text" && supportedMediaTypes[2].Subtype == "plain" && supportedMediaTypes[3].Subtype == "xml"
+
+// the body is labelled with the negotiated media type; a body that is produced as plain text (the
+// fallback for every other negotiated type) is labelled text/plain
+//@ func format
+//@   props C12
+//@   ensures ret2 == nil ==> gam.n == old(gam.n) + 1 && gam.ret2[old(gam.n)] == nil
+//@   ensures ret2 == nil && (gam.ret0[old(gam.n)].Subtype == "html" || gam.ret0[old(gam.n)].Subtype == "json" || gam.ret0[old(gam.n)].Subtype == "xml") ==> ret0 == gam.ret0[old(gam.n)]
+//@   ensures ret2 == nil && gam.ret0[old(gam.n)].Subtype != "html" && gam.ret0[old(gam.n)].Subtype != "json" && gam.ret0[old(gam.n)].Subtype != "xml" ==> ret0.Type == "text" && ret0.Subtype == "plain"
+//@   assert at call GetAcceptableMediaType#1: callarg1 == supportedMediaTypes
